@@ -4,6 +4,45 @@ import Sop.Driver.Util
 namespace Sop.Driver.CommitProto
 open Sop.Driver Sop.Commit
 
+def showIds (ids : List UUID) : String :=
+  "[" ++ ",".intercalate ((ids.mergeSort (· ≤ ·)).map toString) ++ "]"
+def wipClass (h : Handle) : String := if h.wip = 0 then "0" else if h.wip = 1 then "1" else "t"
+def showHandle (h : Handle) : String :=
+  s!"{h.lid}:{h.idA}:{h.idB}:{b01 h.activeB}:{h.version}:{wipClass h}:{b01 h.deleted}"
+def showHandles (hs : List Handle) : String :=
+  "[" ++ " ".intercalate ((hs.mergeSort (fun a b => a.lid ≤ b.lid)).map showHandle) ++ "]"
+def showKeys (ids : List UUID) : String :=
+  "[" ++ " ".intercalate ((ids.mergeSort (· ≤ ·)).map (fun i => s!"lock:{i}")) ++ "]"
+def showDeltas (ds : List (Nat × Int)) : String :=
+  "[" ++ " ".intercalate ((ds.mergeSort (fun a b => a.1 ≤ b.1)).map (fun (s, d) => s!"st{s}:{if d ≥ 0 then "+" else ""}{d}")) ++ "]"
+
+def clsName : Cls → String
+  | .tlogAdd => "tlog.Add" | .tlogRemove => "tlog.Remove" | .plogAdd => "plog.Add" | .plogRemove => "plog.Remove"
+  | .regGet => "reg.Get" | .regAdd => "reg.Add" | .regUpdate => "reg.Update" | .regUpdateNoLocks => "reg.UpdateNoLocks"
+  | .regRemove => "reg.Remove" | .blobAdd => "blob.Add" | .blobRemove => "blob.Remove" | .srUpdate => "sr.Update"
+  | .srRemove => "sr.Remove" | .l2GetStructs => "l2.GetStructs" | .l2SetStructs => "l2.SetStructs" | .l2Delete => "l2.Delete"
+  | .l2Lock => "l2.Lock" | .l2DualLock => "l2.DualLock" | .l2IsLocked => "l2.IsLocked" | .l2Unlock => "l2.Unlock"
+
+def clsOfName (s : String) : Option Cls :=
+  [Cls.tlogAdd, .tlogRemove, .plogAdd, .plogRemove, .regGet, .regAdd, .regUpdate, .regUpdateNoLocks, .regRemove, .blobAdd,
+   .blobRemove, .srUpdate, .srRemove, .l2GetStructs, .l2SetStructs, .l2Delete, .l2Lock, .l2DualLock, .l2IsLocked, .l2Unlock].find? (fun c => clsName c == s)
+
+def showArgs : Args → String
+  | .none => ""
+  | .ids l => showIds l
+  | .keys l => showKeys l
+  | .handles l => showHandles l
+  | .aon l => "aon " ++ showHandles l
+  | .num n => toString n
+  | .deltas l => showDeltas l
+  | .store n => s!"[st{n}]"
+  | .bool b => if b then "true" else "false"
+
+def showEv (e : Ev) : String :=
+  let a := showArgs e.args
+  let r := showArgs e.res
+  clsName e.cls ++ (if a.isEmpty then "" else " " ++ a) ++ (if r.isEmpty then "" else " -> " ++ r) ++ (if e.err then " !err" else "")
+
 structure St where
   s : State := {}
   ws : List StoreWS := []
@@ -48,7 +87,7 @@ def runCommit (st : St) (tid : Nat) : St × String :=
   let s0 := if created then { st.s with tlog := fun k => if k = tid then true else st.s.tlog k } else st.s
   let r0 : Run := { s := s0, tid := tid, fault := st.fault, fresh := st.fresh, cs := if created then .createStore else .unknown }
   let (o, r) := commit { stores := st.ws } st.maxRetry r0
-  let out := (match o with | .ok => "ok" | .err => "err" | .conflict => "conflict") ++ " | " ++ " ; ".intercalate r.trace.reverse
+  let out := (match o with | .ok => "ok" | .err => "err" | .conflict => "conflict") ++ " | " ++ " ; ".intercalate (r.trace.reverse.map showEv)
   ({ st with s := r.s, fresh := r.fresh, fault := none, last := some r }, out)
 
 def step (st : St) (ws : List String) : St × String :=
@@ -89,9 +128,9 @@ def step (st : St) (ws : List String) : St × String :=
   | ["fresh", ps] => ({ st with fresh := st.fresh ++ natPairList ps }, "ok")
   | ["maxretry", n] => ({ st with maxRetry := (n.toNat?).getD 30 }, "ok")
   | ["fault", cls, occ, kind] =>
-    match occ.toNat? with
-    | some occ => ({ st with fault := some ⟨cls, occ, if kind == "failAfter" then .failAfter else .failBefore⟩ }, "ok")
-    | none => (st, "bad-op")
+    match occ.toNat?, clsOfName cls with
+    | some occ, some c => ({ st with fault := some ⟨c, occ, if kind == "failAfter" then .failAfter else .failBefore⟩ }, "ok")
+    | _, _ => (st, "bad-op")
   | ["commit", tid] =>
     match tid.toNat? with
     | some tid => runCommit st tid
